@@ -1121,9 +1121,36 @@ func strReplaceAll(s, old, nw *Term) *Term {
 	return t
 }
 
+// stripCommonPrefix removes an equal constant prefix of two concatenations
+// (lexicographic comparison is invariant under it).
+func stripCommonPrefix(a, b *Term) (*Term, *Term) {
+	pa, pb := partsOf(a), partsOf(b)
+	if len(pa) == 0 || len(pb) == 0 || !pa[0].Const || !pb[0].Const {
+		return a, b
+	}
+	x, y := pa[0].SVal, pb[0].SVal
+	n := 0
+	for n < len(x) && n < len(y) && x[n] == y[n] {
+		n++
+	}
+	if n == 0 || (n < len(x) && n < len(y)) {
+		return a, b // nothing in common, or the constants already differ (decided by the caller)
+	}
+	ra := concatParts(append([]*Term{mkStr(x[n:])}, pa[1:]...))
+	rb := concatParts(append([]*Term{mkStr(y[n:])}, pb[1:]...))
+	return ra, rb
+}
+
 func strLt(a, b *Term) *Term {
 	if a.Const && b.Const {
 		return mkBool(a.SVal < b.SVal)
+	}
+	a, b = stripCommonPrefix(a, b)
+	if a.Const && b.Const {
+		return mkBool(a.SVal < b.SVal)
+	}
+	if a.String() == b.String() {
+		return tFalse
 	}
 	return app("str.<", KBool, 0, a, b)
 }
@@ -1131,6 +1158,13 @@ func strLt(a, b *Term) *Term {
 func strLe(a, b *Term) *Term {
 	if a.Const && b.Const {
 		return mkBool(a.SVal <= b.SVal)
+	}
+	a, b = stripCommonPrefix(a, b)
+	if a.Const && b.Const {
+		return mkBool(a.SVal <= b.SVal)
+	}
+	if a.String() == b.String() {
+		return tTrue
 	}
 	return app("str.<=", KBool, 0, a, b)
 }
